@@ -101,9 +101,13 @@ def main():
     repo = f"{WORK}/{a.name}/repo"
     os.makedirs(repo, exist_ok=True)
     sh(f"rsync -r --checksum --no-times --delete --exclude target --exclude .git --exclude html2text-web-demo --exclude pages {REPO}/ {repo}/")
+    # a private pristine copy: /repo may move on while the sweep runs
+    base = f"{WORK}/{a.name}/base"
+    os.makedirs(base, exist_ok=True)
+    sh(f"rsync -r --checksum --no-times --delete --exclude target --exclude .git --exclude html2text-web-demo --exclude pages {REPO}/ {base}/")
     cands = []
     for f in a.files.split(","):
-        text = open(f"{REPO}/{f}").read()
+        text = open(f"{base}/{f}").read()
         cands += candidates(f, text)
     if a.only_lines:
         f, r = a.only_lines.split(":")
@@ -124,7 +128,7 @@ def main():
         if (f, ln + 1, op, after.strip()) in done:
             continue
         t0 = time.time()
-        orig = open(f"{REPO}/{f}").read()
+        orig = open(f"{base}/{f}").read()
         lines = orig.split("\n")
         assert lines[ln] == before
         lines[ln] = after
